@@ -137,12 +137,13 @@ where
             if self.eof {
                 return Recv::Closed;
             }
+            // look at the socket at least once, however late this thread got to run
             let now = Instant::now();
-            if now >= deadline {
-                return Recv::Timeout;
-            }
-            let rev = poll_fd(ch.sock.as_raw_fd(), libc::POLLIN, deadline - now);
+            let rev = poll_fd(ch.sock.as_raw_fd(), libc::POLLIN, deadline.saturating_duration_since(now));
             if rev == 0 {
+                if Instant::now() >= deadline {
+                    return Recv::Timeout;
+                }
                 continue;
             }
             ch.interest.insert(Ready::READABLE);
@@ -533,12 +534,75 @@ impl Drop for HubLab {
 // =================================================================================================
 
 const WORKER_TIMEOUT_S: u32 = 1;
-const SLACK: Duration = Duration::from_millis(3000);
-const LATE_AFTER_TIMEOUT: Duration = Duration::from_millis(500);
+/// How much slower than a quiet development machine this run is (x1000), measured at start by
+/// `calibrate`: every wall-clock margin of the check is multiplied by it.
+static TIME_SCALE_MILLI: AtomicU64 = AtomicU64::new(1000);
+
+/// `ms` milliseconds on a quiet machine
+fn scaled_ms(ms: u64) -> Duration {
+    Duration::from_micros(ms * TIME_SCALE_MILLI.load(Ordering::Relaxed))
+}
+
+/// how long after worker_timeout a final answer may still arrive before the request counts as
+/// unanswered (and is re-run)
+fn slack() -> Duration {
+    scaled_ms(3000)
+}
+
+/// how long after the worker timeout a "late" worker answers: the hub must have noticed its own
+/// deadline within this margin
+fn late_after_timeout() -> Duration {
+    scaled_ms(500)
+}
+
+/// Round trips of a trivial Status through a hub with one prompt worker, and the overshoot of
+/// short sleeps: how late threads of this process get to run right now.
+fn calibrate(root: &Path) -> Value {
+    let mut rtts: Vec<u64> = Vec::new();
+    let mut overshoot_us = 0u64;
+    for _ in 0..20 {
+        let t = Instant::now();
+        std::thread::sleep(Duration::from_millis(2));
+        overshoot_us = overshoot_us.max((t.elapsed().as_micros() as u64).saturating_sub(2000));
+    }
+    if let Ok(mut lab) = HubLab::start(root, 1, WORKER_TIMEOUT_S, |_| {}) {
+        let mut workers = lab.take_workers();
+        let stop = AtomicBool::new(false);
+        std::thread::scope(|sc| {
+            let w = &mut workers[0];
+            let stop = &stop;
+            sc.spawn(move || {
+                while !stop.load(Ordering::SeqCst) {
+                    if let Recv::Msg(m) = w.recv_until(Instant::now() + Duration::from_millis(20)) {
+                        let _ = w.send(&resp(&m.id, ResponseStatus::Ok, "ok".into(), None));
+                    }
+                }
+            });
+            if let Ok(mut c) = lab.client() {
+                for _ in 0..30 {
+                    let t = Instant::now();
+                    if let Ok((_, Some(_))) = c.request(RequestType::Status(Status {}), Duration::from_secs(10)) {
+                        rtts.push(t.elapsed().as_micros() as u64);
+                    }
+                }
+            }
+            stop.store(true, Ordering::SeqCst);
+        });
+        drop(workers);
+        let _ = lab.shutdown();
+    }
+    rtts.sort_unstable();
+    let p90 = rtts.get(rtts.len() * 9 / 10).copied().unwrap_or(0);
+    // a quiet machine: p90 round trip well under 2 ms, sleep overshoot under 1 ms
+    let scale = (p90 as f64 / 2000.0).max(overshoot_us as f64 / 2000.0).clamp(1.0, 8.0);
+    TIME_SCALE_MILLI.store((scale * 1000.0) as u64, Ordering::Relaxed);
+    json!({"status_round_trips": rtts.len(), "round_trip_us_median": rtts.get(rtts.len() / 2), "round_trip_us_p90": p90,
+           "max_sleep_overshoot_us": overshoot_us, "time_scale": scale})
+}
 /// unknown-id answers per burst of a talkative worker
 const CHATTER_BURST: usize = 3000;
 /// scenarios with two overlapping deadlines (see gen_scenario)
-const OVERLAP_CASES: u64 = 8;
+const OVERLAP_CASES: u64 = 12;
 /// scenarios where a worker answers and closes its channel while the hub thread is held busy
 const SAME_TICK_CASES: u64 = 16;
 /// LoadState of sound / damaged / unreadable state files
@@ -840,8 +904,21 @@ fn gen_scenario(seed: u64, case: u64, exhaustive_reps: u64, race_cases: u64) -> 
         // overlap block: request A has one worker that answers 500+ ms after the worker timeout,
         // request B (another client, 0.6-0.8 s later) has a mute worker, so that B's later
         // deadline is pending when A's passes and nothing else wakes the hub in between
-        let workers = rng.urange(1, 3);
         let verb_a = [Verb::AddCluster, Verb::QueryClusterById, Verb::QueryMetrics, Verb::AddBackend][(case_in_rest % 4) as usize];
+        if case_in_rest >= 8 {
+            // staggered answers: one worker answers late but in time (0.8 s), another only after
+            // the deadline: the first answer must not buy the second one more time
+            let workers = 2 + (case_in_rest % 2) as usize;
+            let beh = (0..workers)
+                .map(|w| match w {
+                    0 => Beh::plain_ok(800),
+                    1 => Beh { class: BehClass::LateOk, delay_ms: 0, k: 0, final_fail: false, target_msg: 0 },
+                    _ => Beh::plain_ok(*rng.pick(&[0u64, 300])),
+                })
+                .collect();
+            return Scenario::single(case, seed, workers, Req::new(verb_a, format!("t{case}c0r0x"), 1, beh, 0));
+        }
+        let workers = rng.urange(1, 3);
         let verb_b = *rng.pick(&[Verb::AddCluster, Verb::QueryClusterById, Verb::QueryMetrics]);
         let late_worker = rng.usize_below(workers);
         let beh_a = (0..workers)
@@ -867,14 +944,14 @@ fn gen_scenario(seed: u64, case: u64, exhaustive_reps: u64, race_cases: u64) -> 
         let beh = (0..workers)
             .map(|w| {
                 if w == closer {
-                    Beh { class: BehClass::OkThenClose, delay_ms: 150, k: 0, final_fail: false, target_msg: if n_msgs > 1 { n_msgs - 1 } else { 0 } }
+                    Beh { class: BehClass::OkThenClose, delay_ms: 250, k: 0, final_fail: false, target_msg: if n_msgs > 1 { n_msgs - 1 } else { 0 } }
                 } else {
                     Beh::plain_ok(*rng.pick(&[0u64, 100, 200]))
                 }
             })
             .collect();
         let mut req = Req::new(verb, format!("t{case}c0r0x"), n_msgs, beh, 0);
-        req.stall_ms = Some((40, 350));
+        req.stall_ms = Some((30, 450)); // the end is scaled at run time
         return Scenario::single(case, seed, workers, req);
     }
     case_in_rest -= SAME_TICK_CASES;
@@ -1117,17 +1194,13 @@ fn worker_loop(
     if scenario.pre_closed.contains(&widx) {
         schedule.push((Instant::now(), Action::Close));
     }
-    let mut draining_until: Option<Instant> = None;
+    // Some(()) once the case is over: keep reading until the channel has been found empty, so
+    // that every request the hub dispatched is seen (and counted as received), however late
+    // this thread gets to run
+    let mut draining_until: Option<()> = None;
     loop {
         if draining_until.is_none() && stop.load(Ordering::SeqCst) {
-            // the case is over: keep reading a little so that every request the hub dispatched
-            // is seen (and counted as received) even if its answer no longer matters
-            draining_until = Some(Instant::now() + Duration::from_millis(40));
-        }
-        if let Some(t) = draining_until {
-            if Instant::now() >= t {
-                break;
-            }
+            draining_until = Some(());
         }
         // run what is due
         let now = Instant::now();
@@ -1165,12 +1238,13 @@ fn worker_loop(
                             shared.lock().unwrap().worker_errors.push(format!("worker {widx} send: {e}"));
                         }
                         if close_after {
+                            // instant taken before the close: the hub cannot see it earlier
+                            shared.lock().unwrap().closed_at.entry(widx).or_insert_with(Instant::now);
                             w.close();
-                            shared.lock().unwrap().closed_at.insert(widx, Instant::now());
                         }
                     }
                     Action::Close => {
-                        shared.lock().unwrap().closed_at.insert(widx, Instant::now());
+                        shared.lock().unwrap().closed_at.entry(widx).or_insert_with(Instant::now);
                         w.close();
                     }
                 }
@@ -1179,6 +1253,9 @@ fn worker_loop(
             }
         }
         if w.chan.is_closed() {
+            if draining_until.is_some() {
+                break;
+            }
             std::thread::sleep(Duration::from_millis(10));
             continue;
         }
@@ -1198,8 +1275,12 @@ fn worker_loop(
             let _ = w.chan.send_burst(&resp(&format!("unsolicited-{widx}"), ResponseStatus::Ok, "chatter".into(), None), CHATTER_BURST);
             deadline = Instant::now() + Duration::from_micros(100 + (chatter_sent / CHATTER_BURST as u64 * 7919 % 600));
         }
+        if draining_until.is_some() {
+            deadline = Instant::now() + scaled_ms(30);
+        }
         let req = match w.recv_until(deadline) {
             Recv::Msg(m) => m,
+            Recv::Timeout if draining_until.is_some() => break,
             Recv::Timeout => continue,
             Recv::Closed => {
                 // the hub dropped its end (it exited)
@@ -1249,7 +1330,7 @@ fn worker_loop(
             BehClass::LateOk => {
                 // a soft stop has no deadline by design: there a late answer is a plain answer
                 let rec = if r.verb == Verb::SoftStop { Rec::Ok(c, q) } else { Rec::ExtraOk(c, q) };
-                schedule.push((got_at + timeout + LATE_AFTER_TIMEOUT + Duration::from_millis(b.delay_ms), Action::Send(ok(content), rec)));
+                schedule.push((got_at + timeout + late_after_timeout() + Duration::from_millis(b.delay_ms), Action::Send(ok(content), rec)));
             }
             BehClass::OkThenClose => schedule.push((at, Action::SendThenClose(ok(content), Rec::Ok(c, q)))),
             BehClass::EndlessProcessing => {
@@ -1362,7 +1443,7 @@ fn do_request_with(client: &mut HubClient, r: &Req, rt: RequestType, timeout: Du
         }
         return;
     }
-    let deadline = t0 + timeout + SLACK;
+    let deadline = t0 + timeout + slack();
     // how long to keep listening after the final answer for anything that should not come
     let mut linger = Duration::from_millis(250);
     if r.beh.iter().any(|b| b.class == BehClass::LateOk) {
@@ -1399,7 +1480,7 @@ fn do_request_with(client: &mut HubClient, r: &Req, rt: RequestType, timeout: Du
                     stop_at = now + linger;
                     // a late worker answer is due after the timeout: listen past it
                     if r.beh.iter().any(|b| b.class == BehClass::LateOk) {
-                        let late_due = t0 + timeout + LATE_AFTER_TIMEOUT + Duration::from_millis(350 + 250);
+                        let late_due = t0 + timeout + late_after_timeout() + Duration::from_millis(350) + scaled_ms(250);
                         stop_at = stop_at.max(late_due.min(deadline));
                     }
                 }
@@ -1444,7 +1525,7 @@ fn hold_hub_busy(sock: &str, run_dir: &Path, tag: &str, from_ms: u64, to_ms: u64
         .custom_flags(libc::O_NONBLOCK)
         .open(&fifo)
         .map_err(|e| format!("open fifo: {e}"))?;
-    let give_up = Instant::now() + Duration::from_secs(4);
+    let give_up = Instant::now() + scaled_ms(4000);
     let mut took = None;
     let mut buf = [0u8; 4096];
     while Instant::now() < give_up {
@@ -1566,7 +1647,12 @@ fn run_scenario(root: &Path, s: &Scenario) -> CaseRun {
             None => do_request_with(&mut client, r, rt, timeout, &mut obs[q], Some(&chatter_off)),
             Some((from_ms, to_ms)) => {
                 let stall = std::thread::scope(|sc| {
-                    let h = sc.spawn(|| hold_hub_busy(&sock, &run_dir, &r.tag, from_ms, to_ms));
+                    // longer on a slow machine, but well short of the worker timeout: a hub held
+                    // past a deadline times the task out before it reads the waiting answers,
+                    // which would be this harness's doing
+                    let to_ms = (scaled_ms(to_ms).as_millis() as u64).min(WORKER_TIMEOUT_S as u64 * 700);
+                    let (sock, run_dir) = (&sock, &run_dir);
+                    let h = sc.spawn(move || hold_hub_busy(sock, run_dir, &r.tag, from_ms, to_ms));
                     do_request_with(&mut client, r, rt, timeout, &mut obs[q], Some(&chatter_off));
                     h.join().unwrap_or_else(|_| Err("helper thread panicked".into()))
                 });
@@ -1606,14 +1692,14 @@ fn run_scenario(root: &Path, s: &Scenario) -> CaseRun {
         // responsiveness: a fresh client asks the main process for its worker list
         responsive = Some((|| -> Result<Vec<(u32, i32, i32)>, String> {
             let mut c = HubClient::connect(&sock)?;
-            match c.request(RequestType::ListWorkers(ListWorkers {}), Duration::from_secs(4))? {
+            match c.request(RequestType::ListWorkers(ListWorkers {}), scaled_ms(4000))? {
                 (_, Some(f)) => match f.content.and_then(|c| c.content_type) {
                     Some(ContentType::Workers(w)) if f.status == ResponseStatus::Ok as i32 => {
                         Ok(w.vec.iter().map(|i| (i.id, i.pid, i.run_state)).collect())
                     }
                     other => Err(format!("unexpected answer to ListWorkers: status {} content {:?}", f.status, other.is_some())),
                 },
-                (_, None) => Err("no answer to ListWorkers within 4 s".into()),
+                (_, None) => Err("no answer to ListWorkers in time".into()),
             }
         })());
         // a worker whose script closed its channel must have been SIGKILLed by the hub by now:
@@ -1754,7 +1840,7 @@ impl Judge<'_> {
         }
         rep.obs("client_requests_judged", 1);
         match &o.stall {
-            Some(Ok(ms)) if r.stall_ms.map(|(a, b)| *ms + 30 >= b - a).unwrap_or(false) => rep.obs("hub_thread_held_busy_confirmed", 1),
+            Some(Ok(ms)) if r.stall_ms.map(|(a, b)| *ms + 30 >= (scaled_ms(b).as_millis() as u64).min(WORKER_TIMEOUT_S as u64 * 700) - a).unwrap_or(false) => rep.obs("hub_thread_held_busy_confirmed", 1),
             Some(_) => rep.obs("hub_thread_not_held_busy_as_planned", 1),
             None => {}
         }
@@ -1914,6 +2000,32 @@ impl Judge<'_> {
                 if fin.message.contains("could not dispatch") {
                     rep.obs("refused_by_main_state", 1);
                 }
+                // The verdict must match what the workers did: when the request was handed to
+                // every registered worker and each of them wrote its successful answers early
+                // (in the first half of the worker timeout, so that no deadline is in play), a
+                // FAILURE means an acknowledgement was lost on the way. A worker that exits
+                // right after acknowledging has acknowledged. Like every verdict that leans on
+                // timing it must reproduce on a fresh hub.
+                let early_limit = sent_at + Duration::from_millis(self.run_timeout_ms() / 2);
+                let all_early = (0..self.s.workers).all(|w| {
+                    self.run.shared.worker_side.get(&(c, q, w)).map(|side| {
+                        side.received >= r.n_msgs.max(1)
+                            && side.ok_sent.len() >= side.received
+                            && side.fail_sent.is_empty()
+                            && side.ok_sent.iter().all(|t| *t <= early_limit)
+                            && self.run.shared.closed_at.get(&w).map(|cl| side.ok_sent.iter().all(|t| t <= cl)).unwrap_or(true)
+                    }).unwrap_or(false)
+                });
+                if all_early && r.damage == Damage::None && !fin.message.contains("could not dispatch") {
+                    let sig = format!("hub/failure_although_all_workers_acknowledged/{fam}");
+                    let what = format!(
+                        "{} got final FAILURE after {ttf} ms ({:?}) although every worker had written its successful answer(s) within {} ms of the dispatch",
+                        r.verb.name(),
+                        fin.message.chars().take(80).collect::<String>(),
+                        self.run_timeout_ms() / 2
+                    );
+                    return Verdict::TimeBound(sig, what, self.witness(c, q, "final OK (every worker alive at dispatch acknowledged successfully and in time)", json!({})));
+                }
             } else {
                 rep.obs("final_failure_with_faulty_worker", 1);
             }
@@ -1947,13 +2059,19 @@ impl Judge<'_> {
         // before the worker timeout although the first answers of the workers (one per
         // dispatched message, successful or not) written by then do not add up to the number
         // of dispatched messages, while they do once duplicate and late answers are added.
+        // (A final OK while a live worker has simply not answered yet, without any duplicate to
+        // explain it, stays `ok_before_all_workers_answered`.)
         let mut dispatched = 0usize;
         let mut first_answers_before_final = 0usize;
         let mut extra_answers_before_final = 0usize;
         for w in 0..self.s.workers {
             if let Some(side) = self.run.shared.worker_side.get(&(c, q, w)) {
                 dispatched += side.received;
-                first_answers_before_final += side.ok_sent.iter().chain(side.fail_sent.iter()).filter(|t| **t <= t_final).count();
+                let answered = side.ok_sent.iter().chain(side.fail_sent.iter()).filter(|t| **t <= t_final).count();
+                // the hub answers in place of a worker whose channel closed (a failure for each
+                // request that worker left unanswered): a closed worker has "answered" everything
+                let closed = self.run.shared.closed_at.get(&w).map(|t| *t <= t_final).unwrap_or(false);
+                first_answers_before_final += if closed { side.received.max(answered) } else { answered };
                 extra_answers_before_final += side.extra_ok_sent.iter().filter(|t| **t <= t_final).count();
             }
         }
@@ -1991,7 +2109,9 @@ impl Judge<'_> {
             who.join(", ")
         );
         let witness = self.witness(c, q, "final FAILURE (a live worker failed, disconnected or did not answer within worker_timeout)", json!({"unacknowledged": who}));
-        if class == "ok_despite_late_answer" {
+        if class == "ok_despite_late_answer" || class == "ok_worker_never_asked" {
+            // both rest on this process's threads having run on time (the hub noticing its
+            // deadline, the scripted worker reading its channel before the case ended)
             return Verdict::TimeBound(signature, what, witness);
         }
         self.violate(rep, &signature, &what, witness);
@@ -2047,7 +2167,7 @@ impl Judge<'_> {
         let what = format!(
             "{} got no final answer within worker_timeout + {} ms{} (scripted worker behaviours {:?}{}); {how}",
             r.verb.name(),
-            SLACK.as_millis(),
+            slack().as_millis(),
             if all_acked { " although every worker acknowledged every message" } else { "" },
             r.beh.iter().map(|b| b.class.name()).collect::<Vec<_>>(),
             if self.s.chatty.is_empty() { "" } else { ", workers also flooding answers with unknown ids" },
@@ -2224,7 +2344,7 @@ fn evaluate(ctx: &Ctx, s: &Scenario, run: &CaseRun, rep: &mut Report, allow_reru
         for q in 0..reqs.len() {
             let verdict = judge.judge(c, q, rep);
             if let Verdict::TimeBound(sig, _, _) = &verdict {
-                rep.obs("late_answers_accepted", 1);
+                rep.obs("time_bound_verdicts_re_run", 1);
                 let tag = judge.req(c, q).tag.clone();
                 let mut attempts = vec![s.clone()];
                 if s.clients.iter().map(|v| v.len()).sum::<usize>() + s.stop.iter().count() > 1 {
@@ -2256,7 +2376,7 @@ fn evaluate(ctx: &Ctx, s: &Scenario, run: &CaseRun, rep: &mut Report, allow_reru
                     }
                 }
                 if !reproduced {
-                    rep.inconclusive("late answer accepted once, not reproduced on a fresh hub (hub thread short of CPU?)");
+                    rep.inconclusive("time-bound verdict (late answer accepted / worker never asked) not reproduced on a fresh hub");
                 }
             }
             if verdict == Verdict::Miss {
@@ -2372,15 +2492,16 @@ fn evaluate(ctx: &Ctx, s: &Scenario, run: &CaseRun, rep: &mut Report, allow_reru
 pub fn run(ctx: &Ctx) -> Report {
     let mut rep = Report::new(
         "fault_enumeration",
-        "one real CommandHub per case with W scripted workers (each registered with the pid of a dummy child) and a worker_timeout of 1 s. Block 1 enumerates, for each verb family {mutating, query, metrics, status, load_state, reload, hard_stop, soft_stop}, ALL assignments of the 10 worker behaviours {ok, failure, silent, close channel, duplicate ok, late ok after the deadline, k x processing then final, answer with unknown id, ok then close at once, endless processing notices without a final answer} to W=1 and W=2 workers on a single request (10+100 per family; `exhaustive` refers to this sub-space; delays, k, notice period and the message hit in multi-message verbs are seeded; soft-stop assignments with a never-ending worker are not run, see assumptions). Block 2 (8 cases) overlaps two deadlines: request A with one late-answering worker, request B of another client 0.6-0.8 s later with a mute worker. Block 3 (16 cases, every family, W=1..2) holds the hub thread busy (another client's SaveState into a FIFO nobody reads yet) while one worker acknowledges and closes its channel, so that answer and hang-up reach the hub in one event. Block 4 (16 cases) loads state files that are sound, have valid records followed by a truncated or a garbage record, or hold nothing readable, with acknowledging or mute workers, followed by a second request on the same connection. Block 5 (race) has well-behaved workers that also flood answers with unknown ids around each dispatch, 6-8 sequential requests. Block 6 samples W in 1..4 (mostly 3..4), 1..8 concurrent clients with 1..3 requests each, random behaviours, delays and state-file damage, optionally a final HardStop or SoftStop. Oracle: exactly one final answer per request within worker_timeout + 3 s and nothing after it (a miss is re-run on a fresh hub, first the request alone with the workers doing to it what they did, then the whole scenario, and only a reproduced miss is a violation, else inconclusive); final OK only if every worker that received the request had written a successful answer for each of its messages before the client saw the final answer; no foreign tag/content in any message; hub thread alive (no panic under /repo) and answering a fresh ListWorkers. A case is non-trivial when some worker misbehaves or clients are concurrent; distinct = distinct (W, verbs, behaviour classes, delays) shapes",
+        "one real CommandHub per case with W scripted workers (each registered with the pid of a dummy child) and a worker_timeout of 1 s. Block 1 enumerates, for each verb family {mutating, query, metrics, status, load_state, reload, hard_stop, soft_stop}, ALL assignments of the 10 worker behaviours {ok, failure, silent, close channel, duplicate ok, late ok after the deadline, k x processing then final, answer with unknown id, ok then close at once, endless processing notices without a final answer} to W=1 and W=2 workers on a single request (10+100 per family; `exhaustive` refers to this sub-space; delays, k, notice period and the message hit in multi-message verbs are seeded; soft-stop assignments with a never-ending worker are not run, see assumptions). Block 2 (12 cases) overlaps two deadlines (request A with one late-answering worker, request B of another client 0.6-0.8 s later with a mute worker) or staggers the answers to one request (one worker at 0.8 s, another after the deadline). Block 3 (16 cases, every family, W=1..2) holds the hub thread busy (another client's SaveState into a FIFO nobody reads yet) while one worker acknowledges and closes its channel, so that answer and hang-up reach the hub in one event. Block 4 (16 cases) loads state files that are sound, have valid records followed by a truncated or a garbage record, or hold nothing readable, with acknowledging or mute workers, followed by a second request on the same connection. Block 5 (race) has well-behaved workers that also flood answers with unknown ids around each dispatch, 6-8 sequential requests. Block 6 samples W in 1..4 (mostly 3..4), 1..8 concurrent clients with 1..3 requests each, random behaviours, delays and state-file damage, optionally a final HardStop or SoftStop. Oracle: exactly one final answer per request within worker_timeout + 3 s and nothing after it (every wall-clock margin is multiplied by a factor measured at start from Status round trips and sleep overshoot; a miss, an accepted late answer or a worker that was never asked is re-run on a fresh hub, first the request alone with the workers doing to it what they did, then the whole scenario, and only a reproduced one is a violation, else inconclusive); final OK only if every worker that received the request had written a successful answer for each of its messages before the client saw the final answer; no foreign tag/content in any message; hub thread alive (no panic under /repo) and answering a fresh ListWorkers. A case is non-trivial when some worker misbehaves or clients are concurrent; distinct = distinct (W, verbs, behaviour classes, delays) shapes",
     );
     rep.assume("a worker counts as alive at dispatch iff it read the request off its channel; requests racing with a scripted channel close are exempt");
+    rep.assume("a worker whose channel closed before the final answer disconnected: the final answer must be a failure; the main process answering its pending requests in its place does not make an OK a duplicate-driven or premature one");
     rep.assume("Status is not among the verbs the statement quantifies over: an OK whose worker list is truthful (no mute worker reported RUNNING) is accepted and counted as exempt");
     rep.assume("SoftStop has no deadline by design (it waits for the workers' sessions to end): it is driven only with workers that eventually send a final answer or close their channel, and a late answer is a plain answer there; assignments with a never-ending worker (silent, unknown id, endless processing) are not run");
-    rep.assume("a worker that acknowledges and closes its channel at once has acknowledged: OK is accepted; the statement also lets a disconnect turn the verdict into a failure, so FAILURE is accepted too (counted); what is demanded is exactly one final answer in time");
+    rep.assume("a worker that acknowledges and closes its channel at once has acknowledged (\"disconnected\" in the statement is read as disconnecting instead of answering): its answer must be counted like any other");
     rep.assume("PROCESSING notices are not an answer: a worker that only sends notices did not answer within the worker timeout, for the per-answer deadline of LoadState/ReloadConfiguration as well (only final answers and further dispatches may push that deadline back)");
     rep.assume("a LoadState of a damaged or unreadable state file must get exactly one final answer; which status is not judged by this property");
-    rep.assume("a final FAILURE although every live worker acknowledged is not judged (the statement only bounds when OK is allowed); it is counted");
+    rep.assume("the verdict has to match what the workers did: a final FAILURE is a violation when the request reached every registered worker and each wrote all its successful answers in the first half of the worker timeout (an acknowledgement was lost), provided it reproduces on a fresh hub; other failures with all workers acknowledging (near the deadline, refused by the main state, damaged state file, a worker dead before dispatch) are only counted");
     rep.assume("each client sends one request at a time per connection (pipelining is outside the stated quantifier); untagged verbs (Status, QueryClustersHashes, HardStop, SoftStop) are in flight one at a time per hub so that worker-side requests can be attributed");
     for k in [
         "beh:mutating:silent",
@@ -2410,6 +2531,13 @@ pub fn run(ctx: &Ctx) -> Report {
     ] {
         rep.require(k);
     }
+    let mut calibration = calibrate(&ctx.root);
+    if let Some(forced) = ctx.opt("time_scale").and_then(|s| s.parse::<f64>().ok()) {
+        // for trying the check out as on a slower machine
+        TIME_SCALE_MILLI.store((forced.clamp(1.0, 8.0) * 1000.0) as u64, Ordering::Relaxed);
+        calibration["time_scale_forced"] = json!(forced);
+    }
+    rep.set("calibration", calibration);
     let exhaustive_reps = ctx.opt_u64("reps", ctx.tier.pick(1, 6));
     let race_cases = ctx.opt_u64("race", ctx.tier.pick(24, 240));
     if let Some(path) = &ctx.replay {
